@@ -221,3 +221,15 @@ Theorem C12_orientation_general :
             exists m', In m' (get_mappings G2toG1 (find_common_subgraph defs prune wc g2 g1 true)) /\ Permutation m m'.
 Proof. exact orientation_general. Qed.
 Print Assumptions C12_orientation_general.
+
+(** ** 8. what the matchers compare, for the usual configuration of one node attribute (default d) and one edge
+    attribute: labels are equal after substituting the default for a missing value; bond orders are equal, a missing
+    order matching only a missing order (Matcher copy) / nothing at all (MTG copy) *)
+Theorem C12_matchers_meaning :
+  forall (d : N) (e e' : option N) (a b : option N) (x y : option Z),
+  (node_match [d] (Some (e, [a])) (Some (e', [b])) = true <->
+     match a with Some v => v | None => d end = match b with Some v => v | None => d end) /\
+  (edge_match [x] [y] = true <-> x = y) /\
+  (edge_match_mtg [x] [y] = true <-> exists o, x = Some o /\ y = Some o).
+Proof. exact matchers_single. Qed.
+Print Assumptions C12_matchers_meaning.
